@@ -5,8 +5,11 @@
     BEHAVIOURAL counterpart is the readyloop suite (vlib/readygen.py + harness/readyloop.go): the real Ready loop of one node, every
     externalisation judged against what a restart would read from disk at that moment;
   * the `apply` engine differential: random overlapping Ready batches through the real entriesToApply/publishEntries vs Apply.publish;
-  * the `cluster` engine: real node processes on loopback, concurrent clients, SIGKILL/restart/membership faults, porcupine,
-    per-node agreement, ledger of acknowledged writes (harness/cluster.go) — exploration, not proof;
+  * the `cluster` engine: real node processes on loopback, concurrent clients, SIGKILL/restart/membership faults and NETWORK
+    PARTITIONS between live nodes (proxied links, harness/cluster_links.go: every raft link through a forwarder of the harness that can
+    be cut and healed; fault kinds isolate-leader / isolate-follower / split / partition-leader-minority / isolate-follower-snap, with
+    read-only clients pinned to every node so that a cut-off node keeps being asked), porcupine, per-node agreement, ledger of
+    acknowledged writes (harness/cluster.go) — exploration, not proof;
   * deterministic minimal repros of the recorded known findings (each prints KNOWN-FINDING while it still fails).
 
 Processes: every node is started by the harness in its own process group with its PID appended to <scratch>/pids.txt; the harness
@@ -309,9 +312,28 @@ def scenario(name, nodes, clients, load_ms, faults, snap=0, classes=None, **kw):
     return d
 
 
+def pscenario(name, nodes, clients, faults, snap=0, lane=1, **kw):
+    """a scenario with proxied links (partitions between live nodes).  The fault schedule decides how long it runs (a partition fault
+    holds its cut for 2-7 s and then waits until every node serves again), so the clients are paced by the number of faults and the
+    history stays within what porcupine finishes; one read-only client is pinned to every node; commands give up after 1.5 s (on the
+    minority side they would block for as long as the cut lasts; a command a follower forwarded into the cut is lost for good) and
+    count as unknown outcome; a client whose command got no reply backs off for 0.3-0.8 s and turns to the other nodes for 4 s
+    (every unknown-outcome write stays concurrent with the rest of the history: their number decides the search time).  lane: scenarios of one lane run one
+    after the other in one harness process; the partition lanes run beside each other, after the main sequence (lane 0) and the
+    small repros are through."""
+    d = scenario(name, nodes, clients, 3000, faults, snap=snap, proxied=True, readers=1, op_timeout_ms=1500,
+                 max_ops=2500, think_ms=min(48, 12 * len(faults)))
+    d["_lane"] = lane
+    d.update(kw)
+    return d
+
+
 def quick_scenarios(prop):
     if prop == "C07":
-        return [scenario("q-leader-kill-3", 3, 8, 5000, ["kill-leader"])]
+        return [scenario("q-leader-kill-3", 3, 8, 5000, ["kill-leader"]),
+                pscenario("q-isolate-leader-3", 3, 6, ["isolate-leader"], lane=1),
+                pscenario("q-isolate-follower-3", 3, 6, ["isolate-follower"], lane=2),
+                pscenario("q-split-3", 3, 6, ["split"], lane=3)]
     return [scenario("q-snapshot-all-kill-3", 3, 8, 5500, ["kill-all"], snap=20),
             scenario("q-lag-then-all-kill-3", 3, 6, 6500, ["lag-then-all-kill"], snap=20)]
 
@@ -331,6 +353,13 @@ def thorough_scenarios(prop, rng):
               scenario("member-delete-3", 3, 6, 6000, ["del-member", "kill-follower"], classes=["str", "ctr", "set", "ledger"]),
               scenario("member-delete-5", 5, 8, 7000, ["del-member", "kill-leader", "kill-follower"]),
               scenario("everything-3", 3, 8, 12000, ["kill-follower", "kill-leader", "kill-all", "lag-follower", "kill-leader"], snap=20)]
+        S += [pscenario("isolate-leader-repeated-3", 3, 6, ["isolate-leader", "isolate-leader", "isolate-leader"]),
+              pscenario("partitions-mixed-3", 3, 8, ["isolate-follower", "split", "isolate-leader"]),
+              pscenario("isolate-leader-5", 5, 8, ["isolate-leader", "isolate-follower"]),
+              pscenario("partition-leader-minority-5", 5, 8, ["partition-leader-minority", "split", "partition-leader-minority"]),
+              pscenario("partition-and-kill-3", 3, 6, ["isolate-leader", "kill-leader", "isolate-follower", "kill-follower"], lane=2),
+              pscenario("partition-and-kill-5", 5, 8, ["partition-leader-minority", "kill-minority", "isolate-leader"], lane=2),
+              pscenario("partition-snapshot-3", 3, 6, ["isolate-follower-snap", "isolate-leader"], snap=20, lane=2)]
     else:
         S += [scenario("all-kill-3", 3, 8, 8000, ["kill-all", "kill-all"]),
               scenario("all-kill-5", 5, 12, 9000, ["kill-all", "kill-minority", "kill-all"]),
@@ -343,6 +372,10 @@ def thorough_scenarios(prop, rng):
               scenario("lag-then-all-kill-5", 5, 8, 11000, ["lag-then-all-kill", "lag-then-all-kill"], snap=10),
               scenario("leader-then-all-5", 5, 8, 9000, ["kill-leader", "kill-all"], snap=20),
               scenario("repeated-all-kill-3", 3, 4, 12000, ["kill-all", "kill-all", "kill-all", "kill-all"], snap=20)]
+        # a LIVE follower is cut off across the snapshot threshold (caught up by MsgSnap after the heal), combined with full restarts
+        S += [pscenario("partition-snapshot-all-kill-3", 3, 6, ["isolate-follower-snap", "kill-all"], snap=20),
+              pscenario("partition-snapshot-5", 5, 8, ["isolate-follower-snap", "isolate-leader", "kill-all"], snap=20),
+              pscenario("partition-then-all-kill-3", 3, 6, ["isolate-leader", "kill-all", "isolate-follower-snap"], snap=10, lane=2)]
     # a few randomly composed ones
     kinds = ["kill-follower", "kill-leader", "kill-all", "kill-minority", "lag-follower"]
     for i in range(3):
@@ -372,14 +405,14 @@ EXPLAIN = {
     "not-linearizable": "no single order of the acknowledged commands on this key (respecting real time, with the final reads through every node) explains the replies",
     "replicas-disagree": "after quiescence two nodes return different values for the same key",
     "lost-write": "an acknowledged write is not reflected by a read after the restarts",
-    "unavailable": "a node that was restarted from its on-disk state does not serve requests again",
+    "unavailable": "a node that was restarted from its on-disk state (or whose links were cut and restored) does not serve requests again",
 }
 
 
 def summarise(r):
     return {k: r.get(k) for k in ("scenario", "seed", "nodes", "clients", "snapcount", "result", "ops_acked", "ops_unknown", "keys_checked",
                                   "keys_inconclusive", "keys_agree_on_all_nodes", "nodes_read", "snapshots_taken", "snapshots_received",
-                                  "faults_injected", "ledger", "seconds")}
+                                  "faults_injected", "ledger", "links", "seconds")}
 
 
 def run_cluster(R, ctx, prop, binary, known_sigs, demo_props):
@@ -401,14 +434,27 @@ def run_cluster(R, ctx, prop, binary, known_sigs, demo_props):
             side = [dict(d) for d in REPAIRED.get(prop, [])]
             side += [dict(DEMOS[s]) for s in demo_props if s in DEMOS]
             jobs = []
-            with concurrent.futures.ThreadPoolExecutor(max_workers=4) as ex:
-                # the main scenarios run one after the other in one harness (timing matters); the small repros run beside them
-                main_f = ex.submit(run_engine, binary, server, os.path.join(wd_l, "main"), R.seed * 1000, scen,
-                                   60 + sum(s["load_ms"] / 1000.0 + 90 for s in scen))
+            lanes = {}
+            for s in scen:
+                lanes.setdefault(s.pop("_lane", 0), []).append(s)
+            with concurrent.futures.ThreadPoolExecutor(max_workers=8) as ex:
+                # the scenarios of a lane run one after the other in one harness process (timing matters); every harness process that
+                # runs at the same time has its own block of ports
+                def start(lane):
+                    ls = lanes[lane]
+                    return ex.submit(run_engine, binary, server, os.path.join(wd_l, "main" if lane == 0 else "lane%d" % lane),
+                                     R.seed * 1000 + 100 * lane, ls, 60 + sum(s["load_ms"] / 1000.0 + 90 + 25 * len(s["faults"]) for s in ls),
+                                     0 if lane == 0 else len(side) + lane)
+                # the main sequence and the small repros first, exactly as before the partition lanes existed; the partition lanes
+                # (beside each other) after them: run beside the main sequence they slow its 16-client scenarios down enough (more
+                # commands without a reply, a busier machine for porcupine) to leave linearizability searches unfinished, and the
+                # repros with fixed waits (a removed member must be gone 3 s later) start to miss their deadlines.
+                lane_f = [start(0)] if 0 in lanes else []
                 for i, d in enumerate(side):
                     jobs.append((d, ex.submit(run_engine, binary, server, os.path.join(wd_l, "side%d" % i), R.seed * 1000 + 500 + i, [d], 180, i + 1)))
-                main = main_f.result()
+                main = [r for f in lane_f for r in f.result()]
                 side_reports = [(d, f.result()[0]) for d, f in jobs]
+                main += [r for f in [start(lane) for lane in sorted(lanes) if lane != 0] for r in f.result()]
             R.extra["cluster_wall_s"] = round(time.time() - t0, 1)
         finally:
             leftover = reap(wd_l)
@@ -449,7 +495,9 @@ def run_cluster(R, ctx, prop, binary, known_sigs, demo_props):
             sc = next((s for s in scen if s["name"] == r["scenario"]), None)
             R.violation("cluster-%s-%s" % (r["scenario"], p["kind"]), dict(
                 kind="impl-violates-spec" if p["kind"] != "start-failed" else "tie-broken", engine="cluster", scenario=sc, seed_used=r.get("seed"),
-                summary="%s: %s: %s" % (r["scenario"], p["kind"], p["detail"][:1500]), report={k: v for k, v in r.items() if k != "history"},
+                summary="%s: %s: %s%s" % (r["scenario"], p["kind"], p["detail"][:1500],
+                                            (" || " + " | ".join(r.get("excerpt") or [])[:2500]) if p["kind"] == "not-linearizable" and r.get("excerpt") else ""),
+                excerpt=r.get("excerpt") or [], report={k: v for k, v in r.items() if k != "history"},
                 history=(r.get("history") or [])[-200:], explanation=EXPLAIN.get(p["kind"], "")), found_input=p["kind"] != "start-failed")
 
     # ---- repros
@@ -507,7 +555,11 @@ def replay_cluster(R, payload):
                 import shutil
                 shutil.rmtree(wd_l, ignore_errors=True)
     r = reps[0]
-    print(json.dumps({k: v for k, v in r.items() if k not in ("history", "final")}, indent=1)[:6000])
+    if payload.get("excerpt"):
+        print("recorded run (%s):\n  %s" % ("; ".join((payload.get("report") or {}).get("faults_injected") or []), "\n  ".join(payload["excerpt"])))
+    print(json.dumps({k: v for k, v in r.items() if k not in ("history", "final", "excerpt", "log_tail")}, indent=1)[:6000])
+    if r.get("excerpt"):
+        print("this run:\n  " + "\n  ".join(r["excerpt"]))
     bad = r.get("result") not in ("ok", "demo-agrees")
     print("replay: %s (process schedules are not deterministic: a passing replay does not prove absence)" % ("still failing" if bad else "not reproduced"))
     return 1 if bad else 0
